@@ -190,6 +190,9 @@ fn eval_union_expr(
         };
     }
 
+    // a node-set is kept in document order, whatever the order of the operands
+    nodes.sort_by_cached_key(|v| v.order());
+
     let mut set = HashSet::new();
     nodes.retain(|v| set.insert(v.order()));
 
